@@ -35,7 +35,7 @@ def _closure(deps, roots):
 
 
 def mof(req):
-    rng, objs, commits, trees, blobs, tags, deps = G.build_objects(req["seed"], req["n"])
+    rng, objs, commits, trees, blobs, tags, deps = G.build_objects(req["seed"], req["n"], inrepo_gitlinks=True)
     from dulwich.object_store import MemoryObjectStore
     store = MemoryObjectStore()
     for o in objs:
@@ -76,7 +76,7 @@ def _populate(repo, objs):
 def transfer(req):
     """sender holds a random history; the receiver holds the closure of some heads; one transfer of some wanted heads"""
     from dulwich.client import LocalGitClient, SubprocessGitClient
-    rng, objs, commits, trees, blobs, tags, deps = G.build_objects(req["seed"], req["n"])
+    rng, objs, commits, trees, blobs, tags, deps = G.build_objects(req["seed"], req["n"], inrepo_gitlinks=True)
     byid = {o.id: o for o in objs}
     r2 = random.Random(req["seed"] + 7)
     heads = commits + tags
@@ -186,3 +186,74 @@ def transfer(req):
 
 
 HANDLERS["transfer"] = transfer
+
+
+def shallow_transfer(req):
+    """a receiver that starts as a depth-limited fetch of one head and then fetches other heads the ordinary way: after each
+    step everything reachable from the fetched heads down to the receiver's shallow boundary must be there"""
+    from dulwich.client import LocalGitClient, SubprocessGitClient
+    rng, objs, commits, trees, blobs, tags, deps = G.build_objects(req["seed"], req["n"], inrepo_gitlinks=True)
+    byid = {o.id: o for o in objs}
+    r2 = random.Random(req["seed"] + 11)
+    first = r2.choice(commits[len(commits) // 2:])
+    later = [x.id for x in r2.sample(commits, min(len(commits), r2.randrange(1, 3)))]
+    depth = r2.choice([1, 1, 2, 3])
+    base = tempfile.mkdtemp(prefix="verif-c05s-", dir=os.environ.get("VERIF_SCRATCH") or None)
+    try:
+        src = Repo.init_bare(os.path.join(base, "src.git"), mkdir=True)
+        dst = Repo.init_bare(os.path.join(base, "dst.git"), mkdir=True)
+        _populate(src, objs)
+        src.refs[b"refs/heads/first"] = first.id
+        for i, w in enumerate(later):
+            src.refs[b"refs/heads/later%d" % i] = w
+        if req.get("pack_sender"):
+            src.object_store.pack_loose_objects()
+        mode = req["mode"]
+        res = {"mode": mode, "depth": depth, "steps": []}
+
+        def client():
+            return SubprocessGitClient() if mode == "git-upload-pack" else LocalGitClient()
+
+        def audit(heads):
+            shallow = set(dst.get_shallow())
+            missing, todo, seen = [], list(heads), set()
+            while todo:
+                x = todo.pop()
+                if x in seen:
+                    continue
+                seen.add(x)
+                try:
+                    o = dst.object_store[x]
+                except KeyError:
+                    missing.append(x.decode()[:8])
+                    continue
+                if o.as_raw_string() != byid[x].as_raw_string():
+                    missing.append("differs:" + x.decode()[:8])
+                if isinstance(o, Commit):
+                    todo.append(o.tree)
+                    if x not in shallow:
+                        todo += o.parents
+                elif isinstance(o, Tree):
+                    todo += [e.sha for e in o.iteritems() if e.mode != 0o160000]
+            fs = subprocess.run(["git", "--git-dir", dst.path, "fsck", "--connectivity-only"], env=GIT_ENV, capture_output=True)
+            return {"missing": sorted(missing)[:5], "shallow": len(shallow), "objects": len(seen),
+                    "fsck": 0 if fs.returncode == 0 else (fs.stdout + fs.stderr).decode("latin1")[-200:]}
+        try:
+            r = client().fetch(src.path, dst, determine_wants=lambda refs, depth=None: [first.id], depth=depth)
+            dst.refs[b"refs/heads/first"] = first.id
+            res["steps"].append(dict(audit([first.id]), step="shallow"))
+            r = client().fetch(src.path, dst, determine_wants=lambda refs, depth=None: [w for w in later if w not in dst.object_store or True])
+            for i, w in enumerate(later):
+                dst.refs[b"refs/heads/later%d" % i] = w
+            res["steps"].append(dict(audit([first.id] + later), step="ordinary"))
+            res["result"] = "ok"
+        except Exception as e:  # noqa: BLE001
+            res["result"] = "exc:" + type(e).__name__ + ":" + str(e)[:120]
+        src.close()
+        dst.close()
+        return res
+    finally:
+        shutil.rmtree(base, ignore_errors=True)
+
+
+HANDLERS["shallow_transfer"] = shallow_transfer
